@@ -456,3 +456,9 @@ MUTANTS += [
   "old": "                for o in range(max_order + 1):\n                    mvp += self.mvp_block_order(",
   "new": "                for o in range(max_order):\n                    mvp += self.mvp_block_order("},
 ]
+
+MUTANTS += [
+ {"id": "c09-ed-sum-drops-targets", "prop": "C09", "file": "adcgen/func.py",
+  "old": "        return expr.func(*[evaluate_deltas(arg, target_idx)\n                           for arg in expr.args])",
+  "new": "        return expr.func(*[evaluate_deltas(arg)\n                           for arg in expr.args])"},
+]
